@@ -7,6 +7,7 @@
 #include <signal.h>
 #include <stdlib.h>
 #include <string.h>
+#include <sys/stat.h>
 #include <sys/syscall.h>
 #include <sys/wait.h>
 #include <unistd.h>
@@ -43,6 +44,7 @@
 #define PX_SUBMITTED	3
 #define PX_GRACE	4
 #define PX_ALIVE_AT_CLOSE 5
+#define PX_REALCHECKED	6
 
 #define NRLOG 96
 static struct { int n, saturated; struct { uint64_t seq; int status; } e[NRLOG]; } rlog[MAXOBJ];
@@ -284,6 +286,57 @@ static void wait_cb(struct rthr *th, int id, int status)
 /* ---- popen ------------------------------------------------------------------------ */
 static char *popen_argv[] = { "puppet", NULL };
 
+/* C19 wiring: really fork + exec a shell that reports what its standard streams are */
+static void popen_real_check(int id, int fd, int c)
+{
+	struct robj *o = &RO[id];
+	int for_read = PL->obj[id].p[0] == 0, st;
+	pid_t pid = (pid_t)RO[c].xi[CX_PID];
+	char path[96], l0[128] = "", l1[128] = "", l2[128] = "", l3[128] = "", want[64], data[32] = "";
+	struct stat sb;
+	FILE *f;
+
+	if (!for_read) {
+		if (syscall(SYS_write, (long)fd, "PING\n", 5L) != 5)
+			viol("C19.wiring", "popen obj %d (type w): cannot write to the returned descriptor", id);
+	}
+	st = simk_real_child_wait(pid);
+	(void)st;
+	snprintf(path, sizeof(path), "/dev/shm/ivsim-pup-%d-%d", (int)getpid(), id);
+	f = fopen(path, "r");
+	if (f == NULL) {
+		viol("C19.wiring", "popen obj %d: the child did not run the requested program (no report)", id);
+		return;
+	}
+	if (fgets(l0, sizeof(l0), f) && fgets(l1, sizeof(l1), f) && fgets(l2, sizeof(l2), f))
+		if (!fgets(l3, sizeof(l3), f))
+			l3[0] = 0;
+	fclose(f);
+	unlink(path);
+	l0[strcspn(l0, "\n")] = 0; l1[strcspn(l1, "\n")] = 0; l2[strcspn(l2, "\n")] = 0; l3[strcspn(l3, "\n")] = 0;
+	fstat(fd, &sb);
+	snprintf(want, sizeof(want), "pipe:[%lu]", (unsigned long)sb.st_ino);
+	if (for_read) {
+		long n;
+		if (strcmp(l0, "/dev/null") || strcmp(l1, want) || strcmp(l2, "/dev/null"))
+			viol("C19.wiring", "popen obj %d (type r): child has stdin=%s stdout=%s stderr=%s, expected /dev/null, the pipe whose other end was returned, /dev/null", id,
+			     strcmp(l0, want) ? (strncmp(l0, "pipe:", 5) ? l0 : "another pipe") : "the pipe", strcmp(l1, want) ? (strncmp(l1, "pipe:", 5) ? "a file" : "another pipe") : "the pipe",
+			     strcmp(l2, want) ? (strncmp(l2, "pipe:", 5) ? l2 : "another pipe") : "the pipe");
+		n = syscall(SYS_read, (long)fd, data, (long)sizeof(data) - 1);
+		if (n != 11 || memcmp(data, "ivsim-data\n", 11))
+			viol("C19.wiring", "popen obj %d (type r): what the child wrote to its standard output did not arrive on the returned descriptor (%ld bytes)", id, n);
+	} else {
+		if (strcmp(l0, want) || strcmp(l1, "/dev/null") || strcmp(l2, "/dev/null"))
+			viol("C19.wiring", "popen obj %d (type w): child has stdin=%s stdout=%s stderr=%s, expected the pipe whose other end was returned, /dev/null, /dev/null", id,
+			     strcmp(l0, want) ? (strncmp(l0, "pipe:", 5) ? l0 : "another pipe") : "the pipe", strcmp(l1, want) ? (strncmp(l1, "pipe:", 5) ? (strcmp(l1, "/dev/null") ? "a file" : l1) : "another pipe") : "the pipe",
+			     strcmp(l2, want) ? (strncmp(l2, "pipe:", 5) ? l2 : "another pipe") : "the pipe");
+		if (strcmp(l3, "PING"))
+			viol("C19.wiring", "popen obj %d (type w): what was written to the returned descriptor did not arrive on the child's standard input ('%s')", id, l3);
+	}
+	o->xi[PX_REALCHECKED] = 1;
+	PROBE[PR_PID_REUSED + 0] += 0;
+}
+
 static int popen_reg(struct rthr *th, int id)
 {
 	struct robj *o = &RO[id];
@@ -302,6 +355,18 @@ static int popen_reg(struct rthr *th, int id)
 	req->file = "/verif/build/puppet";
 	req->argv = popen_argv;
 	req->type = po->p[0] ? "w" : "r";
+	if (po->p[2]) {
+		static char scripts[MAXOBJ][400];
+		static char *argvs[MAXOBJ][4];
+		char *script = scripts[id], **argv = argvs[id];
+		snprintf(script, sizeof(scripts[0]),
+			 "R=/dev/shm/ivsim-pup-%d-%d; L=$(readlink /proc/$$/fd/0 /proc/$$/fd/1 /proc/$$/fd/2); echo \"$L\" > $R; %s",
+			 (int)getpid(), id, po->p[0] ? "head -c 5 >> $R" : "echo ivsim-data");
+		argv[0] = "sh"; argv[1] = "-c"; argv[2] = script; argv[3] = NULL;
+		req->file = "/bin/sh";
+		req->argv = argv;
+		simk_set_real_fork(1);
+	}
 	mk_script(c, &s);
 	simk_next_child_script(&s);
 	pending_spawn[th->sim] = c + 1;
@@ -323,6 +388,8 @@ static int popen_reg(struct rthr *th, int id)
 	o->xi[PX_SUBMITTED] = 1;
 	o->xi[PX_CLOSED] = 0;
 	o->registered = 1;
+	if (po->p[2])
+		popen_real_check(id, fd, c);
 	return 1;
 }
 
